@@ -51,7 +51,7 @@ impl KspTerminationCriteria {
             }
             KspTerminationCriteria::Factor { factor } => {
                 KspTerminationCriteria::Exact.terminate_search(k, solution_size)
-                    && (*factor as usize * solution_size) >= k
+                    && (*factor as usize).saturating_mul(solution_size) >= k
             }
         }
     }
